@@ -31,6 +31,7 @@ type cfg struct {
 	MaxSubs   int      `json:"max_subs"`
 	MaxInputs int      `json:"max_inputs"` // arrivals explored per execution
 	Prefix    []string `json:"prefix"`
+	RtspPull  bool     `json:"rtsp_pull"` // relay pull attempts go to an RTSP origin
 }
 
 type replay struct {
@@ -213,6 +214,11 @@ func (s *sys) send(in *input) {
 		}
 		in.rtmp.SendMsgs(ref.Msg{Csid: 4, Type: 8, Msid: 1, Ts: ts, Payload: aacPayload(idx)})
 	case "pull":
+		if in.dial.Origin.Rtsp {
+			in.seq++
+			in.dial.Conn.Feed(ref.Interleaved(0, ref.BuildRtp(ref.Rtp{Marker: true, PT: 97, Seq: in.seq, Ts: uint32(idx * 1024), Ssrc: 9, Payload: ref.PackAacHbr(aacPayload(idx)[2:])})))
+			break
+		}
 		if in.sent == 0 {
 			in.dial.Origin.SendMsgs(ref.Msg{Csid: 4, Type: 8, Msid: 1, Ts: ts, Payload: ashPayload})
 		}
@@ -349,6 +355,7 @@ func (s *sys) applyMain(ev string) error {
 	s.viols = nil // the monitors of earlier events ran when those events were explored
 	w := s.w
 	curBefore := s.cur
+	sdpBefore := logic.VerifSdp(w.SM, stream)
 	hooksBefore := len(w.Hooks)
 	hookMsgsBefore := 0
 	if hooksBefore > 0 {
@@ -511,7 +518,11 @@ func (s *sys) applyMain(ev string) error {
 		}
 	case "ApiStart":
 		s.apiOn = true
-		w.SM.CtrlStartRelayPull(base.ApiCtrlStartRelayPullReq{Url: "rtmp://" + w.Host("origin") + "/live/" + stream, PullRetryNum: 0, AutoStopPullAfterNoOutMs: -1})
+		scheme := "rtmp://"
+		if s.c.RtspPull {
+			scheme = "rtsp://"
+		}
+		w.SM.CtrlStartRelayPull(base.ApiCtrlStartRelayPullReq{Url: scheme + w.Host("origin") + "/live/" + stream, PullRetryNum: 0, AutoStopPullAfterNoOutMs: -1})
 		err = w.Settle()
 	case "ApiStop":
 		s.apiOn = false
@@ -586,6 +597,9 @@ func (s *sys) applyMain(ev string) error {
 	}
 	wantIn := map[string]string{"": "in[rtmp=0 rtsp=0 cust=0 ps=0 pullRtmp=0 pullRtsp=0", "rtmp": "in[rtmp=1 rtsp=0 cust=0 ps=0 pullRtmp=0 pullRtsp=0", "rtsp": "in[rtmp=0 rtsp=1 cust=0 ps=0 pullRtmp=0 pullRtsp=0",
 		"cust": "in[rtmp=0 rtsp=0 cust=1 ps=0 pullRtmp=0 pullRtsp=0", "ps": "in[rtmp=0 rtsp=0 cust=0 ps=1 pullRtmp=0 pullRtsp=0", "pull": "in[rtmp=0 rtsp=0 cust=0 ps=0 pullRtmp=1 pullRtsp=0"}
+	if s.c.RtspPull {
+		wantIn["pull"] = "in[rtmp=0 rtsp=0 cust=0 ps=0 pullRtmp=0 pullRtsp=1"
+	}
 	k := ""
 	if s.cur != nil {
 		k = s.cur.kind
@@ -673,6 +687,12 @@ func (s *sys) applyMain(ev string) error {
 			s.add("delivery/lost", "frame #%d published by the accepted %s input #%d did not reach an attached subscriber", lastFrame, s.cur.kind, s.cur.id)
 		}
 	}
+	// the description RTSP subscribers of the stream get is the accepted input's: no foreign event changes it
+	if foreign && ev != "T" && curBefore != nil && s.cur == curBefore {
+		if now := logic.VerifSdp(w.SM, stream); !bytes.Equal(now, sdpBefore) {
+			s.add("outputs/sdp-changed", "event %s changed the stream's RTSP description while the %s input #%d stayed attached (%d -> %d bytes)", ev, curBefore.kind, curBefore.id, len(sdpBefore), len(now))
+		}
+	}
 	// the hook (an output) sees exactly what the accepted input sends: nothing on foreign events
 	if curBefore != nil && s.cur == curBefore && len(w.Hooks) == hooksBefore && hooksBefore > 0 {
 		msgs, _ := w.Hooks[hooksBefore-1].Counts()
@@ -680,7 +700,7 @@ func (s *sys) applyMain(ev string) error {
 		want := 0
 		if ev == "P" {
 			want = 1
-			if s.cur.sent == 1 && s.cur.kind != "rtsp" {
+			if s.cur.sent == 1 && s.cur.kind != "rtsp" && !(s.cur.kind == "pull" && s.c.RtspPull) {
 				want = 2 // its sequence header
 			}
 		}
@@ -838,6 +858,7 @@ func configs(r *vk.Run) []cfg {
 	cs = append(cs, cfg{Name: "publishers", Alphabet: []string{"In:rtmp", "In:rtsp", "In:cust", "Out", "KickIn", "P", "J", "FeedOld"}, MaxSubs: 1, MaxInputs: 3})
 	cs = append(cs, cfg{Name: "publishers+ps", Alphabet: []string{"In:rtmp", "In:ps", "In:cust", "Out", "KickIn", "P", "J", "T"}, MaxSubs: 1, MaxInputs: 3})
 	cs = append(cs, cfg{Name: "pull-vs-publishers", Alphabet: []string{"In:rtmp", "In:rtsp", "In:cust", "In:ps", "Out", "KickIn", "P", "J", "ApiStart", "T"}, MaxSubs: 1, MaxInputs: 2})
+	cs = append(cs, cfg{Name: "rtsppull-vs-publishers", RtspPull: true, Alphabet: []string{"In:rtmp", "In:rtsp", "In:cust", "Out", "KickIn", "P", "J", "ApiStart", "T"}, MaxSubs: 1, MaxInputs: 2})
 	cs = append(cs, cfg{Name: "rtsp-vs-ps", Alphabet: []string{"In:rtsp", "In:ps", "In:pstcp", "Out", "KickIn", "P", "J"}, MaxSubs: 1, MaxInputs: 3})
 	cs = append(cs, cfg{Name: "subscribers", Alphabet: []string{"In:rtmp", "In:rtsp", "Out", "P", "J", "KickSub", "T"}, MaxSubs: 2, MaxInputs: 2})
 	if !r.Quick() {
